@@ -516,7 +516,7 @@ func genQuery(r *vh.Rand, pts []point, dups, flushed bool) *queryJ {
 	for _, it := range q.Items {
 		// last / first over several storage slots of one series is decided by the order of the physical sources
 		// (memory block, write window, files), C11's subject: such items keep the storage interval
-		if it.Field < 5 && (it.Field == 3 || it.Field == 4) && (it.Func == 0 || it.Func == 4 || it.Func == 5) {
+		if lastFirstAtStorageInterval && (it.Field == 3 || it.Field == 4) && (it.Func == 0 || it.Func == 4 || it.Func == 5) {
 			q.Ivl = 0
 		}
 	}
@@ -561,6 +561,10 @@ func genLayout(r *vh.Rand) layoutJ {
 	}
 	return lay
 }
+
+// lastFirstAtStorageInterval: statements with a last/first item do not group by time (C12); the query worlds of C11
+// switch it off.
+var lastFirstAtStorageInterval = true
 
 var refLayout = layoutJ{NumShards: 1, Place: []int{0}, Nodes: 1}
 
